@@ -20,7 +20,10 @@ RULE = ("random command trees (vp/gen_cmd.py, profile defaults=0.7 env=0.6, no h
         "absent, spelled `--o`, `--o=`, `--o=v`, `--o v`, `-o`, `-o=v`; a second stream mutates tokens; a third runs every "
         "command twice (with / without its default declarations); a fourth uses the shared generator with every parser "
         "feature on (hyphen values, trailing var args, flag subcommands, inference, external subcommands, boundary and "
-        "non-UTF-8 tokens).  A case is non-trivial when the result is Ok and some "
+        "non-UTF-8 tokens).  The first stream also carries `pending_error_cases`: ignore_errors, an argument with a "
+        "distinctive default (sometimes an environment variable) that is a single/multi-valued positional or a num_args(1..) "
+        "option, values, then a token that raises an error while the occurrence is still open (`help <unknown>`, a conflicting "
+        "subcommand, an error inside the subcommand, an unknown flag, an invalid subcommand).  A case is non-trivial when the result is Ok and some "
         "argument of a reached level has at least two of {command-line occurrence, set environment variable, declared "
         "default} or a default-missing occurrence; distinct = distinct case text.")
 TRUSTED = [
@@ -40,7 +43,8 @@ TECHNIQUE = ("Coq proof about the executable parser model (phase order of get_ma
              "the occurrence is empty; source tables regenerated from action.rs / value_source.rs; round 2: whole-line "
              "statements by composition with the un-parser theorem C02_unparse (class wf_inv), C10's line invariant K "
              "(all token lists) and C09's globals closed form; a simulation proof that no function of the command-line "
-             "phase, the env phase or the validator reads a default value) + extracted-model / "
+             "phase, the env phase or the validator reads a default value; under ignore_errors: pending-invariance of react on "
+             "success and error states and an append-only shape invariant of the defaults phase that holds of error states) + extracted-model / "
              "implementation correspondence + python precedence oracle on the implementation")
 LEVEL_TEXT = ("Machine-checked theorems (Coq 8.16, closed under the global context) about the executable model of "
               "Parser::{get_matches_with, add_env, add_defaults, add_default_value, react, start_custom_arg, parse (token loop)}, "
@@ -58,7 +62,12 @@ LEVEL_TEXT = ("Machine-checked theorems (Coq 8.16, closed under the global conte
               "pre-defaults state, the same verdict and the same explicit entries, and -- when no default_value_if reads a changed "
               "argument -- the same source and values for every unchanged argument (C06_defaults_noninterference, C06_defaults_unchanged_args, with "
               "C06_phases_ignore_defaults for ALL commands); for every valid definition without short flag subcommands and "
-              "EVERY token list a CommandLine label implies that a token names the argument.  The model is tied to clap_builder "
+              "EVERY token list a CommandLine label implies that a token names the argument.  Under ignore_errors, for ALL "
+              "commands and token lists (C06_ignore_errors_pending_flushed): the state handed back with an error has no pending "
+              "occurrence; the dropped phases ran pending occurrence -> environment -> defaults, each from the state the previous "
+              "one left; the defaults phase -- also when it stops at an error -- only appended DefaultValue entries for absent "
+              "arguments and every other entry is handed back unchanged (the pre-repair behaviour, a default appended to a "
+              "CommandLine entry / a command-line value lost, is kept as C06_pending_default_before_fix).  The model is tied to clap_builder "
               "by running the extracted model "
               "and the real crate (debug build) on the same generated cases on every run and comparing per level the (id, "
               "value_source, raw occurrences) lists in ids() order and args_present; a python oracle written from the "
@@ -69,7 +78,8 @@ LEVEL_NOTE = ("Trusted: Coq kernel, extraction (ExtrOcamlBasic), OCaml driver, R
               "source, so the result depends on the definition order (theorem C06_conditional_default_order_dependent).  "
               "Whole-line iff / origin / non-interference theorems hold for C02's class wf_inv (no hyphen values, last, "
               "trailing var args, terminators, require_equals, inference, flag or external subcommands, ignore_errors); outside "
-              "it only 'CommandLine => a token names it' is proved and the rest is differential.  'EnvVariable => not named on "
+              "it only 'CommandLine => a token names it' is proved and the rest is differential (under ignore_errors additionally the "
+              "phase order and the frame of what is handed back; which partial command-line entries exist at the error is differential).  'EnvVariable => not named on "
               "the line' is refuted (C06_env_named_refuted: an override chain removes the occurrence, the environment re-adds "
               "the argument; the real crate agrees).")
 
@@ -262,6 +272,61 @@ def gen_generic(rng, n):
         for _ in range(4):
             out.append(gen_cmd.case_sx(c, gen_cmd.gen_argv(rng, c, p_mutate=0.4, safe_p=0.5), mode="c06"))
     return out[:n]
+
+
+def pending_error_cases(rng, n):
+    """`ignore_errors` + an argument with a default (sometimes also an environment variable) whose occurrence is
+    still being collected when a token raises an error: a single- or multi-valued positional, or an option with
+    `num_args(1..)`, followed by `help <unknown>`, a subcommand name that conflicts
+    (`args_conflicts_with_subcommands`), an error inside the subcommand, an unknown flag or an invalid
+    subcommand.  Defaults and environment values are distinctive (they occur in no token of the line), so
+    "a value reported under CommandLine occurs in a command-line token" has teeth.  (finding repaired by
+    docs/pending/pending_flush_fix.diff: the error branch of Parser::get_matches_with did not store the pending
+    occurrence before the environment and the defaults were consulted.)"""
+    out = []
+    while len(out) < n:
+        kind = rng.choice(["pos_multi", "pos_multi", "pos_single", "opt_multi"])
+        a = {"id": b"p0", "flags": set(), "default": [rng.choice([b"pd9", b"dq7", b"zd9,zq9"])]}
+        if rng.random() < 0.3:
+            a["default"].append(b"pd8")
+        if kind == "pos_multi":
+            a.update(index=1, num=rng.choice([(1, None), (1, None), (1, 3), (0, None), (2, 4)]))
+        elif kind == "pos_single":
+            a.update(index=1)
+        else:
+            a.update(long=b"opt", short="o", action=rng.choice(["set", "append"]), num=rng.choice([(1, None), (1, 3), (0, None)]))
+        if rng.random() < 0.3:
+            a["delim"] = ","
+        if rng.random() < 0.45:
+            a["env"] = (b"VP6_PF_p0", rng.choice([b"ev9", b"ev9", b"e19,e29", None]))
+        args = [a]
+        if rng.random() < 0.5:
+            args.insert(rng.randrange(2), {"id": b"z", "flags": set(), "short": "z", "action": rng.choice(["count", "settrue"])})
+        if rng.random() < 0.5:
+            q = {"id": b"q", "flags": set(), "long": b"qq", "action": "set", "default": [b"qd9"]}
+            if rng.random() < 0.4:
+                q["env"] = (b"VP6_PF_q", rng.choice([b"qe9", None]))
+            args.insert(rng.randrange(len(args) + 1), q)
+        settings = ["ignore_errors"]
+        if rng.random() < 0.8:        # without it an open multi-valued occurrence swallows `help` / the subcommand name
+            settings.append("subcommand_precedence_over_arg")
+        if rng.random() < 0.3:
+            settings.append("args_conflicts_with_subcommands")
+        sub = {"name": b"a", "about": b"A:p/a", "args": [], "groups": [], "subs": [], "settings": [], "aliases": []}
+        if rng.random() < 0.4:
+            sub["args"].append({"id": b"x", "flags": set(), "long": b"xx", "action": "set", "default": [b"xd9"]})
+        c = {"name": b"p", "about": b"A:p", "args": args, "groups": [], "subs": [sub], "settings": settings, "aliases": []}
+        vals = [rng.choice([b"s", b"v1", b"w", b"s,t"]) for _ in range(1 if kind == "pos_single" else rng.choice([1, 1, 2, 3]))]
+        tail = rng.choice([[b"help", b"E"], [b"help", b"E"], [b"help", b"E", b"x"], [b"help", b"a", b"E"],
+                           [b"a"], [b"a", b"--nope"], [b"a", b"stray"], [b"-Z"], [b"--nope"], [b"bogus"], [b"--opt"], []])
+        line = []
+        if any(x["id"] == b"z" for x in args) and rng.random() < 0.6:
+            line.append(b"-z")
+        if kind == "opt_multi":
+            line.append(rng.choice([b"--opt", b"-o"]))
+        line += vals + tail
+        out.append(gen_cmd.case_sx(c, [b"prog"] + line, mode="c06"))
+    return out
 
 
 def directed_cases():
@@ -656,8 +721,9 @@ def oracle(case, impl):
         return None
     cmd, _, argv = decode(case)
     if any("ignore_errors" in c["settings"] for c in all_cmds(cmd)):
-        # an Ok under ignore_errors may be a swallowed error (partial command-line entries), but the
-        # environment and default phases still run, in that order, at every level that was reached
+        # an Ok under ignore_errors may be a swallowed error (partial command-line entries), but at every level that
+        # was reached the occurrence still being collected is stored first, then the environment phase and the
+        # defaults phase run, in that order (Parser::get_matches_with, error branch; C06_ignore_errors_pending_flushed)
         return check_levels_ignore_errors(cmd, argv, p["m"])
     return check_levels(cmd, argv, p["m"], present)
 
@@ -688,9 +754,53 @@ def _env_surely_valid(a):
     return False
 
 
+def declared_default_values(a):
+    """every value a DefaultValue entry of `a` may hold: the plain default, the values of its conditional
+    defaults, the implicit default of a flag action -- split at the declared delimiter"""
+    vals = list(a.get("default") or []) + [d for _, _, d in a.get("difs", []) if d is not None]
+    vals += IMPLICIT_DEFAULT.get(a.get("action"), [])
+    return set(split_vals(a, vals))
+
+
+def check_origin_ignore_errors(cmd, argv, m):
+    """`ignore_errors`: an Ok may be a swallowed error, so the line cannot be re-read token by token; what the
+    property says about ORIGINS still holds of every entry that is reported: the values of an entry labelled
+    CommandLine occur in command-line tokens (or are the argument's missing-value default), the values of an entry
+    labelled DefaultValue are declared defaults of that argument.  (The pending occurrence is stored first, then
+    the environment is consulted, then the defaults: Parser::get_matches_with, error branch.)"""
+    chain = chain_levels(cmd, levels(m))
+    ids = collections.Counter(b["id"] for _, eff2, _ in chain for b in eff2)
+    toks = argv[1:] if "no_binary_name" not in cmd["settings"] else argv
+    for k, (c, eff, ents) in enumerate(chain):
+        by_arg = {a["id"]: a for a in eff}
+        for e in ents:
+            a = by_arg.get(e["id"])
+            if a is None or ids[a["id"]] > 1 or "global" in a["flags"]:
+                continue          # a group, an external subcommand, or an id that also exists at another reached level
+                                  # (the entries of global arguments are copied between levels after parsing)
+            vals = [v for g in e["occ"] for v in g]
+            if e["src"] == "cmdline" and takes_value(a) and a.get("action") in ("set", "append", None):
+                dm = set(split_vals(a, a.get("dmissing") or []))
+                for v in vals:
+                    if v not in dm and not any(v in t for t in toks):
+                        return ("level %d (%s): %s reports CommandLine but its value %r occurs in no command-line token "
+                                "[ignore_errors; declared defaults %r]"
+                                % (k, c["name"].decode(), a["id"].decode(), v, sorted(declared_default_values(a))))
+            if e["src"] == "default":
+                decl = declared_default_values(a)
+                for v in vals:
+                    if v not in decl:
+                        return ("level %d (%s): %s reports DefaultValue but its value %r is no declared default %r [ignore_errors]"
+                                % (k, c["name"].decode(), a["id"].decode(), v, sorted(decl)))
+    return None
+
+
 def check_levels_ignore_errors(cmd, argv, m):
     lv = levels(m)
     chain = chain_levels(cmd, lv)
+    bad = check_origin_ignore_errors(cmd, argv, m)
+    if bad:
+        return bad
     for k, (c, eff, ents) in enumerate(chain):
         with_env = [a for a in eff if a.get("env") and a["env"][1] is not None]
         if not with_env or not all(_env_surely_valid(a) for a in with_env):
@@ -703,7 +813,7 @@ def check_levels_ignore_errors(cmd, argv, m):
             e = by_id.get(a["id"])
             if e is not None and e["src"] == "default":
                 return ("level %d (%s): %s reports DefaultValue although its environment variable is set (%r) "
-                        "[ignore_errors: the environment phase still runs before the defaults]"
+                        "[ignore_errors: the occurrence still being collected is stored first, then the environment phase runs, then the defaults]"
                         % (k, c["name"].decode(), a["id"].decode(), a["env"][1]))
     return None
 
@@ -824,10 +934,11 @@ def streams(tier, rng):
     quick = tier == "quick"
     n_main, n_mut, n_pair = (8000, 4000, 4000) if quick else (160000, 60000, 60000)
     n_gen = 3000 if quick else 50000
+    n_pend = 600 if quick else 12000
     d4 = {"measured": "on the implementation's results of this run (filled in while the stream is evaluated)"}
     d1, d2, d3 = ({"measured": "on the implementation's results of this run (filled in while the stream is evaluated)"} for _ in range(3))
     return [
-        Stream("sources", directed_cases() + gen_cases(rng, n_main, "c06", 0.0), oracle=oracle, area="sources",
+        Stream("sources", directed_cases() + pending_error_cases(rng, n_pend) + gen_cases(rng, n_main, "c06", 0.0), oracle=oracle, area="sources",
                project=project, nontrivial=make_nontrivial(d1), describe=d1),
         Stream("sources_mutated", gen_cases(rng, n_mut, "c06", 0.6), oracle=oracle, area="sources",
                project=project, nontrivial=make_nontrivial(d2), describe=d2),
